@@ -38,6 +38,33 @@ pub fn big_blocks_tree() -> (Opts, Tree) {
     (Opts::defaults(), t)
 }
 
+/// Blocks larger than the default maximum: a backup run with a 64 MiB block size over files
+/// of 40 MiB and 33 MiB + 1 (each stored as one block) and a small one.
+pub fn huge_block_tree() -> (Opts, Tree) {
+    let mut t = Tree::empty_root(Meta { mode: 0o755, ..plain_meta() });
+    let m = plain_meta();
+    for (name, pool, len) in [("forty-mib", 3u8, 40u32 << 20), ("thirty-three-mib-plus-1", 4, (33u32 << 20) + 1), ("small", 6, 10)] {
+        t.0.insert(format!("/{name}"), Node { kind: Kind::File { pool, len }, meta: m });
+    }
+    (Opts { block: 64 << 20, ..Opts::defaults() }, t)
+}
+
+/// One very large file (272 MiB, fourteen blocks with default options) between small files
+/// that sort before and after it.
+pub fn huge_file_tree() -> (Opts, Tree) {
+    let mut t = Tree::empty_root(Meta { mode: 0o755, ..plain_meta() });
+    let m = plain_meta();
+    for (name, pool, len) in [
+        ("aaa-small", 5u8, 50u32),
+        ("abc-small", 6, 700),
+        ("big.bin", 2, 272u32 << 20),
+        ("zzz-small", 7, 60),
+    ] {
+        t.0.insert(format!("/{name}"), Node { kind: Kind::File { pool, len }, meta: m });
+    }
+    (Opts::defaults(), t)
+}
+
 /// Should this worker run the probes? (one worker, not the corpus-replaying one)
 pub fn mine(idx: u32, of: u32) -> bool {
     idx == of / 2
